@@ -158,9 +158,10 @@ func getWorld(seed uint64) *world {
 
 // build constructs value vi of entry e (never cached objects are handed out twice: every call builds anew,
 // so a caller may use the result as a receiver and overwrite it).
-func build(seed uint64, e *entry, vi int) any {
+func build(seed uint64, e *entry, vi int) any { return buildValue(seed, e, e.values(seed)[vi]) }
+
+func buildValue(seed uint64, e *entry, v value) any {
 	w := getWorld(seed)
-	v := e.vals[vi]
 	sampling.VerifSeed(engine.Hash(seed, "c08/value", e.name, v.label))
 	g := &gen{prng: uni.KeyedPRNG(seed, "c08/gen", e.name, v.label)}
 	obj := v.mk(w, g)
